@@ -22,6 +22,9 @@
 
 #include <set>
 
+#include <sys/wait.h>
+#include <unistd.h>
+
 #include "c04_support.h"
 #include "vf_clock.h"
 
@@ -35,14 +38,45 @@ namespace {
 
 // ---- samplers -----------------------------------------------------------------------------------
 struct SamplerCall {
+  // what the tracer handed to the sampler
   tr::SpanContext parent{false, false};
   tr::TraceId trace_id;
+  std::string name;
+  tr::SpanKind kind;
+  std::string attrs, links;  // rendered in the order delivered
+  // what the sampler answered
   Decision decision;
   bool has_ts;
   std::string ts;
   bool has_attrs;
 };
 struct SamplerLog { std::vector<SamplerCall> calls; };
+
+// rendering of the (few) attribute types the harness passes to StartSpan; anything else shows as '?'
+struct RenderV {
+  std::string operator()(bool v) const { return v ? "bool:true" : "bool:false"; }
+  std::string operator()(int32_t v) const { return vf::sfmt("int32:%d", v); }
+  std::string operator()(int64_t v) const { return vf::sfmt("int64:%lld", (long long)v); }
+  std::string operator()(const char *v) const { return std::string("string:") + v; }
+  std::string operator()(nostd::string_view v) const { return "string:" + std::string(v.data(), v.size()); }
+  template <class T> std::string operator()(const T &) const { return "?"; }
+};
+std::string render_kv(const ot::common::KeyValueIterable &kv) {
+  std::string s;
+  kv.ForEachKeyValue([&](nostd::string_view k, AttributeValue v) noexcept {
+    s += std::string(k.data(), k.size()) + "=" + nostd::visit(RenderV{}, v) + ";";
+    return true;
+  });
+  return s;
+}
+std::string render_links(const tr::SpanContextKeyValueIterable &links) {
+  std::string s;
+  links.ForEachKeyValue([&](tr::SpanContext sc, const ot::common::KeyValueIterable &a) noexcept {
+    s += show(sc) + "{" + render_kv(a) + "},";
+    return true;
+  });
+  return s;
+}
 
 // Observes what the sampler under it decided; the decision itself is the wrapped sampler's.
 class RecordingSampler final : public sdktr::Sampler {
@@ -57,6 +91,10 @@ class RecordingSampler final : public sdktr::Sampler {
     SamplerCall call;
     call.parent = parent;
     call.trace_id = trace_id;
+    call.name = std::string(name.data(), name.size());
+    call.kind = kind;
+    call.attrs = render_kv(attrs);
+    call.links = render_links(links);
     call.decision = r.decision;
     call.has_ts = (bool)r.trace_state;
     call.ts = r.trace_state ? r.trace_state->ToHeader() : std::string();
@@ -285,9 +323,28 @@ struct Exec {
       how = vf::sfmt("Context(span#%d)", i);
     }
     size_t calls0 = slog.calls.size(), sids0 = idlog.span_ids.size(), tids0 = idlog.trace_ids.size(), exp0 = sink.exported.size();
-    vfq::HeapStr name(vf::sfmt("span-%zu", spans.size()));
+    std::string name_s = vf::sfmt("span-%zu", spans.size());
+    vfq::HeapStr name(name_s);
     MSpan ms;
-    ms.sp = tracer->StartSpan(name.view(), opts);
+    // what else the sampler has to be shown: span kind, start attributes and links rotate with the span number
+    // (no additional choice; the number of spans is part of the canonical state)
+    std::string want_attrs, want_links;
+    long long n = (long long)spans.size();
+    switch (spans.size() % 3) {
+      case 0: ms.sp = tracer->StartSpan(name.view(), opts); break;
+      case 1:
+        opts.kind = tr::SpanKind::kServer;
+        ms.sp = tracer->StartSpan(name.view(), {{"a", int64_t(n)}, {"b", "text"}}, opts);
+        want_attrs = vf::sfmt("a=int64:%lld;b=string:text;", n);
+        break;
+      default: {
+        opts.kind = tr::SpanKind::kConsumer;
+        tr::SpanContext target(c05_trace_id(0xcc, 7), make_span_id(0xcc, (uint32_t)n + 1), tr::TraceFlags(0x01), true, tr::TraceState::FromHeader("lk=1"));
+        ms.sp = tracer->StartSpan(name.view(), {{"a", int64_t(n)}}, {{target, {{"l", true}}}}, opts);
+        want_attrs = vf::sfmt("a=int64:%lld;", n);
+        want_links = show(target) + "{l=bool:true;},";
+      }
+    }
     name.scribble();
     hist += vf::sfmt(" #%zu=Start(%s)", spans.size(), how.c_str());
     ms.how = how;
@@ -329,6 +386,25 @@ struct Exec {
       CK(from_gen, "C05:trace-id-not-from-generator", where + "trace id " + tid + " of a new root did not come from the configured IdGenerator during this call");
     }
     ms.parent = parent.IsValid() ? parent.span_id() : tr::SpanId();
+    // --- the question put to the sampler: "the sampler's decision" is its answer for THIS span, i.e. for the parent that was
+    // resolved, the trace id the span got, and the name / kind / attributes / links the caller gave
+    {
+      std::string asked = "the sampler was asked with parent " + (sc.parent.IsValid() ? show(sc.parent) : std::string("none (invalid context)")) + ", trace id " + hex(sc.trace_id) + ", name '" + sc.name +
+                          vf::sfmt("', kind %d, attributes [", (int)sc.kind) + sc.attrs + "], links [" + sc.links + "]; ";
+      if (parent.IsValid())
+        CK(sc.parent.IsValid() && sc.parent.trace_id() == parent.trace_id() && sc.parent.span_id() == parent.span_id() && sc.parent.trace_flags() == parent.trace_flags() &&
+               sc.parent.IsRemote() == parent.IsRemote() && ts_header(sc.parent) == ts_header(parent),
+           "C05:sampler-input:parent", where + asked + "the span's parent is " + show(parent));
+      else
+        CK(!sc.parent.IsValid(), "C05:sampler-input:parent:root-shown-a-parent", where + asked + "the span is a new root");
+      CK(sc.trace_id == got.trace_id(), "C05:sampler-input:trace-id", where + asked + "the span's trace id is " + tid);
+      CK(sc.name == name_s, "C05:sampler-input:name", where + asked + "the span was started as '" + name_s + "'");
+      CK(sc.kind == opts.kind, "C05:sampler-input:kind", where + asked + vf::sfmt("the span was started with kind %d", (int)opts.kind));
+      CK(sc.attrs == want_attrs, "C05:sampler-input:attributes", where + asked + "the span was started with attributes [" + want_attrs + "]");
+      CK(sc.links == want_links, "C05:sampler-input:links", where + asked + "the span was started with links [" + want_links + "]");
+    }
+    // a span created here was not propagated from anywhere: its own context is not a remote one
+    CK(!got.IsRemote(), "C05:new-context-marked-remote", where + "context " + show(got) + " of a locally started span claims to be remote");
     // --- flags
     uint8_t fl = got.trace_flags().flags();
     bool want_sampled = sc.decision == Decision::RECORD_AND_SAMPLE;
@@ -396,6 +472,51 @@ struct Exec {
        where + vf::sfmt("exported flags %02x / %02x, the span's context has %02x", d.GetFlags().flags(), d.GetSpanContext().trace_flags().flags(), m.ctx.trace_flags().flags()));
     CK(ts_header(d.GetSpanContext()) == ts_header(m.ctx), "C05:exported-trace-state", where + "exported trace state '" + ts_header(d.GetSpanContext()) + "', the span's is '" + ts_header(m.ctx) + "'");
     checked_exports++;
+  }
+
+  // fork(): the child starts one span and reports its ids through a pipe, the parent starts one as well. "Fresh" ids also means
+  // that the two processes do not continue the same pseudo-random sequence (the generator re-seeds itself in the child).
+  void fork_check() {
+    c.stage("fork");
+    int fd[2];
+    CK(pipe(fd) == 0, "C05:fork:harness", "pipe() failed");
+    pid_t pid = fork();
+    if (pid == 0) {
+      // child: nothing but the SDK call; leaves without running destructors or engine code
+      close(fd[0]);
+      uint8_t buf[24] = {0};
+      auto sp = tracer->StartSpan("after-fork-child");
+      tr::SpanContext sc = sp->GetContext();
+      memcpy(buf, sc.trace_id().Id().data(), 16);
+      memcpy(buf + 16, sc.span_id().Id().data(), 8);
+      ssize_t w = write(fd[1], buf, sizeof buf);
+      _exit(w == (ssize_t)sizeof buf ? 0 : 3);
+    }
+    close(fd[1]);
+    CK(pid > 0, "C05:fork:harness", "fork() failed");
+    bool had_parent = active_model().IsValid();
+    hist += " fork{child: Start(active)} parent:";
+    start(P_NONE);  // the parent process goes on with the same tracer (all ordinary checks apply)
+    uint8_t buf[24];
+    size_t got_n = 0;
+    while (got_n < sizeof buf) {
+      ssize_t r = read(fd[0], buf + got_n, sizeof buf - got_n);
+      if (r <= 0) break;
+      got_n += (size_t)r;
+    }
+    close(fd[0]);
+    int status = 0;
+    waitpid(pid, &status, 0);
+    CK(got_n == sizeof buf && WIFEXITED(status) && WEXITSTATUS(status) == 0, "C05:fork:child-failed", vf::sfmt("the forked child delivered %zu of 24 bytes, wait status %d", got_n, status));
+    tr::TraceId ctid(nostd::span<const uint8_t, 16>(buf, 16));
+    tr::SpanId csid(nostd::span<const uint8_t, 8>(buf + 16, 8));
+    std::string where = "after fork() in: " + hist + "\n   ";
+    const tr::SpanContext &mine = spans.back().ctx;
+    CK(ctid.IsValid() && csid.IsValid(), "C05:fork:child-invalid-ids", where + "the child's span has ids " + hex(ctid) + "/" + hex(csid));
+    CK(!(csid == mine.span_id()), "C05:fork:child-repeats-span-id", where + "the span started in the child and the span started in the parent both got span id " + hex(csid) + " (the generator was not re-seeded in the child)");
+    CK(!seen_span_ids.count(hex(csid)) , "C05:fork:child-repeats-span-id", where + "the child's span id " + hex(csid) + " was used before the fork");
+    if (had_parent) CK(ctid == mine.trace_id(), "C05:fork:child-trace-id", where + "the child's span has trace id " + hex(ctid) + ", the active span's is " + hex(mine.trace_id()));
+    else CK(!seen_trace_ids.count(hex(ctid)), "C05:fork:child-repeats-trace-id", where + "the new root started in the child got trace id " + hex(ctid) + ", which this process used too (the generator was not re-seeded in the child)");
   }
 
   // canonical state of the real objects: every span's real context / recording flag, the scope stack, id counters.
@@ -472,17 +593,34 @@ void setup(vf::Options &o) {
 void run(vf::Ctx &c) {
   vf::clock_reset();
   vf::clock_set_autostep_ns(1000);
-  // part 0: custom deterministic IdGenerator, every sampler; part 1: the real RandomIdGenerator
-  int part = c.pick("part", 2);
+  // part 0: custom deterministic IdGenerator, every sampler; part 1: the real RandomIdGenerator; part 2: the real generator across fork()
+  int part = c.pick("part", 3);
   int nsamplers = kBuiltinSamplers + kFixedSamplers + (c.thorough() ? 1 : 0);
   int sampler = part == 0 ? c.pick("sampler", nsamplers) : c.pick("sampler", 2) * 2;  // random ids: AlwaysOn, ParentBased(AlwaysOn)
+  if (part == 2) {
+    // 1..2 spans before the fork (so the thread's generator exists when the process forks - otherwise the two processes seed
+    // themselves independently and whether that happens would depend on what the worker process ran earlier), the last one
+    // active or not: the spans after the fork are new roots or children of the active span
+    int before = 1 + c.pick("spans-before-fork", 2);
+    bool active = c.pick("active-span", 2) == 1;
+    Exec x(c, sampler, true, false);
+    for (int i = 0; i < before; ++i) { x.start(P_NONE); c.step(); c.state(x.state_hash()); }
+    if (active) { x.push(before - 1); c.step(); }
+    x.fork_check();
+    c.step();
+    c.state(x.state_hash());
+    x.finish();
+    c.outcome("fork:" + x.sampler_name + x.outcome());
+    c.sample(x.hist + " => " + x.outcome());
+    return;
+  }
   // the generator claims random trace ids (kIsRandom is set before the level-1 mask) except where thorough also tries "not random"
   bool gen_is_random = part == 0 && (c.thorough() && (sampler == 0 || sampler == 2) ? c.pick("generator-claims-random", 2) == 1 : true);
   int depth = c.thorough() ? 5 : 4;
   // thorough: depth 6 for ParentBased(AlwaysOn) and Harness(RECORD_ONLY, trace state), depth 4 where every StartSpan also picks the decision
   if (c.thorough() && part == 0 && (sampler == 2 || sampler == kBuiltinSamplers + 5)) depth = 6;
   if (sampler == kBuiltinSamplers + kFixedSamplers) depth = 4;
-  Exec x(c, sampler, part == 1, gen_is_random);
+  Exec x(c, sampler, part >= 1, gen_is_random);
   for (int d = 0; d < depth; ++d) {
     {
       // Sound: the samplers are stateless and StartSpan/End/scopes depend on nothing but what the hash covers
